@@ -34,8 +34,15 @@ impl Script {
 /// Facts -> script with every list in a random order; add_* calls for every record
 /// (so that records without terms exist), interleaved with the annotate_* calls.
 pub fn script_from_facts(rng: &mut Rng, f: &Facts, kindb: u8) -> Script {
+    script_from_facts_opt(rng, f, kindb, true)
+}
+
+/// `shuffle_terms = false` keeps the order of `f.terms` (e.g. descendants first)
+pub fn script_from_facts_opt(rng: &mut Rng, f: &Facts, kindb: u8, shuffle_terms: bool) -> Script {
     let mut terms: Vec<(u32, String)> = f.terms.iter().map(|t| (t.id, t.name.clone())).collect();
-    rng.shuffle(&mut terms);
+    if shuffle_terms {
+        rng.shuffle(&mut terms);
+    }
     let mut parents: Vec<(u32, u32)> = f.links.iter().map(|(c, p)| (*p, *c)).collect();
     rng.shuffle(&mut parents);
     let mut annots = vec![];
